@@ -3,6 +3,7 @@ from __future__ import annotations
 
 import copy
 import json
+import re
 import traceback
 from pathlib import Path
 from typing import Any, Dict, List, Optional, Tuple
@@ -16,66 +17,140 @@ from harness.lib.core import VERIF, Ctx, Rng, lean_lock, run_driver
 from harness.rigs import config as R
 
 MANIFEST = {
-    "text": "Lean 4 proof about an executable model of the scenario loader (PrimaiteGame.from_config with the computer/server/switch/"
-            "router/firewall from_config paths, software install, users, folders/files, links, agents with action maps): for EVERY "
+    "text": "Lean 4 proof about an executable model of the scenario loader (PrimaiteGame.from_config with the computer/server/printer/"
+            "switch/router/firewall from_config paths, software install, users, folders/files, links, agents with action maps): for EVERY "
             "well-formed scenario AST the loader builds exactly the inventory the configuration documentation declares - nodes and "
             "their attributes, interfaces and addresses, ACL rules at their stated positions (incl. the six firewall ACLs), routes, "
-            "software with options, users, folders/files, links with bandwidths, agents (C20_build_eq_declared, full strength since the "
-            "F-22 repair: SoftwareManager.install replaces an installed namesake, proved as foldl installOne = last request per name; "
-            "C20_software_one_instance_per_name for EVERY node entry, well-formed or not; C20_configured_application_wins); "
-            "for EVERY permutation of the entries of EVERY mapping "
+            "software with options, users, folders/files, links with bandwidths, agents - EACH IN ITS DECLARED INITIAL STATE: the node in "
+            "its declared operating state (ON/OFF/BOOTING/SHUTTING_DOWN), every piece of software RUNNING iff its node is ON with the "
+            "configured starting health (for every combination of constructor-starts-it / service-or-application / configured-or-system "
+            "software), every interface wired iff a link of the file ends at it and enabled iff wired and its node ON (the links loop "
+            "with connect_link's refusal of a second link is followed and proved equal to the closed form) "
+            "(C20_build_eq_declared, full strength; C20_software_one_instance_per_name and C20_software_initial_state for EVERY node "
+            "entry, well-formed or not; C20_configured_application_wins); for EVERY permutation of the entries of EVERY mapping "
             "(network_interfaces, router ports, firewall ports, acl at both levels, action maps) the loader builds the same simulation "
-            "or raises the same error (C20_key_order_irrelevant, from one lemma per mapping-iteration site of the regenerated site "
+            "or raises the same error (C20_key_order_irrelevant, one lemma per mapping-iteration site of the regenerated site "
             "inventory; the ACL site reuses C07_add_commute); an episode schedule assembles variants(n mod len) then the base scenario "
-            "(C20_schedule_assembles/_periodic/_key_order). Tie: Gen/Config.lean (site inventory, default constants, system-software "
-            "tables, firewall ACL table, scheduler shape, shape of install/uninstall) + rig R-cfg: generated scenario families and every shipped "
-            "scenario (incl. the episode-scheduled directories) -> real from_config -> inventory walked from the object graph, diffed with "
-            "the driver's build and declared; permuted / reversed / re-serialised files compared by inventory and by seeded trajectory "
-            "digest. PARTIAL: wireless routers, printers, airspace, the observation space and the office-lan node set are outside the "
-            "Lean model (office-lan has a closed-form Python oracle in the rig); initial software/NIC states and the YAML text join of "
-            "schedules are checked by rig oracles, not theorems.",
-    "note": "C20-specific: option mappings handed wholesale to pydantic schemas are atoms in the model (canonical tokens made by the rig); "
-            "action_probabilities key order is C19's (F-29) and is kept in file order by the permutation rig.",
+            "(C20_schedule_assembles/_periodic/_key_order); the office-lan node set: a Lean model of OfficeLANAdder's loop builds, for "
+            "EVERY num_pcs / subnet / address block / router option / bandwidth, exactly the documented structure "
+            "(C20_office_build_eq_declared; _pc_wired, _pc_addressed, _addresses, _edge_uplinks, _router, _ports_distinct, "
+            "_invalid_refused). Tie: Gen/Config.lean (site inventory, default constants, system-software tables, firewall ACL table, "
+            "scheduler shape AND freshness (returns the object it has just parsed, stores nothing, no field to cache in), no loader "
+            "function consumes the mapping it is given, every software constructor applies configured options by plain assignment "
+            "(table of live attributes), shape of install/uninstall, office-lan constants / templates / wiring calls) + rig R-cfg: "
+            "generated scenario families, software-matrix scenarios (every configurable software type x non-default options x declared "
+            "operating state of the node) and every shipped scenario -> real from_config -> inventory walked from the object graph "
+            "(option EFFECTS read off the live attributes, initial states) diffed with the driver's build and declared; the same mapping "
+            "built a second time; environments built from a user-held mapping; schedule directories used the way reset() does (one "
+            "scheduler, episodes past the end, every combination built twice, answers handed straight to the loader, freshness probe, "
+            "real environment resets); permuted / reversed / re-serialised / aliased / merge-key / commented / quoted-integer files "
+            "compared by inventory and by seeded trajectory digest; office-lan node sets (incl. refused ones) diffed with the Lean adder. "
+            "PARTIAL: wireless routers, airspace, the defaults section, the observation space and reward sharing are outside the Lean "
+            "model; option mappings are atoms in the model (their effect on live attributes is a rig oracle + the Gen table); the game "
+            "section, the YAML text join of schedules and whole-scenario behaviour are checked by rig oracles, not theorems; after "
+            "reset() every node is powered on (F-31, not claimed: states are compared at load time).",
+    "note": "C20-specific: WellFormed now also asks for unique hostnames (needed to say which node a link end belongs to). "
+            "declared shares with build the list of install requests and the ascending-key order of extra NICs.",
     "technique": "Lean 4 theorems over an executable loader model; regenerated site inventory and tables; differential inventory rig",
     "design_ref": "5/C20",
 }
-MODULES = ["PrimaiteModel.Props.C20"]
+MODULES = ["PrimaiteModel.Props.C20", "PrimaiteModel.Props.C20Office"]
 EXE = "drv_c20"
-KEEP = ("action_probabilities",)  # F-29 (owned by C19): the order of this mapping changes behaviour; not permuted here
+KEEP = ()  # every mapping is permuted, at every level (F-29, which made `action_probabilities` order-sensitive, is repaired)
 # test assets that are not well-formed scenario files: one needs a plug-in node type, one has `agent_settings:` null
 SKIP_SHIPPED = {"bad_primaite_session", "no_nodes_links_agents_network", "extended_config", "eval_only_primaite_session"}
 
 
 # ------------------------------------------------------------------------------------------------ one scenario
-def _load(cfg: Dict):
-    """(game, None) or (None, failure-dict)."""
+def _fail_of(e: Exception) -> Dict:
+    if isinstance(e, RecursionError):
+        return {"kind": "load-raises", "exc": "RecursionError", "where": "HostARP", "msg": str(e)[:100]}
+    tb = traceback.extract_tb(e.__traceback__)[-1]
+    return {"kind": "load-raises", "exc": type(e).__name__, "where": f"{tb.filename.split('primaite/')[-1]}:{tb.name}", "msg": str(e)[:200]}
+
+
+def _build(cfg_obj: Dict):
+    """PrimaiteGame.from_config on THIS object (no copy): (game, None) or (None, failure-dict)."""
+    from primaite.game.game import PrimaiteGame
     try:
-        return scen.make_game(cfg), None
-    except RecursionError as e:
-        return None, {"kind": "load-raises", "exc": "RecursionError", "where": "HostARP", "msg": str(e)[:100]}
+        return PrimaiteGame.from_config(cfg_obj), None
     except Exception as e:
-        tb = traceback.extract_tb(e.__traceback__)[-1]
-        return None, {"kind": "load-raises", "exc": type(e).__name__, "where": f"{tb.filename.split('primaite/')[-1]}:{tb.name}",
-                      "msg": str(e)[:200]}
+        return None, _fail_of(e)
+
+
+def _load(cfg: Dict):
+    """(game, None) or (None, failure-dict); the loader works on a private copy."""
+    return _build(copy.deepcopy(cfg))
+
+
+def mutation_paths(a: Any, b: Any, path: str = "") -> List[str]:
+    """What a call did to its argument: generalised paths (list indices and integer keys dropped) of every difference."""
+    out: List[str] = []
+    if type(a) is not type(b):
+        return [f"{path}:{type(a).__name__}->{type(b).__name__}"]
+    if isinstance(a, dict):
+        for k in list(a.keys()) + [k for k in b if k not in a]:
+            kp = f"{path}/{'#' if isinstance(k, int) else k}"
+            if k not in b:
+                out.append(kp + ":removed")
+            elif k not in a:
+                out.append(kp + ":added")
+            else:
+                out += mutation_paths(a[k], b[k], kp)
+    elif isinstance(a, list):
+        if len(a) != len(b):
+            out.append(path + ":length")
+        for x, y in zip(a, b):
+            out += mutation_paths(x, y, path + "[]")
+    elif a != b:
+        out.append(path + ":changed")
+    return sorted(set(out))
 
 
 def _classify(only_impl: List[str], only_decl: List[str]) -> Dict:
-    """Signature of a declared-vs-built difference."""
+    """Signature of a declared-vs-built difference: the kind of item, and for software the option whose built value differs."""
     items = sorted({l.split()[0] for l in only_impl + only_decl})
     if items == ["sw"] and all(" n=1" not in l for l in only_impl) and all(" n=1" in l for l in only_decl):
         return {"kind": "declared-vs-built", "item": "software", "cause": "name-installed-twice"}
+    if items == ["sw"]:
+        # which software / which field: name the first differing token of the first differing line
+        for a in only_impl:
+            b = next((d for d in only_decl if d.split()[:3] == a.split()[:3]), None)
+            if b:
+                ta, tb = a.split(), b.split()
+                dif = [x.split("=")[0] for x, y in zip(ta, tb) if x != y] or ["options"]
+                return {"kind": "declared-vs-built", "item": "sw", "cause": f"{ta[2]}:{dif[0]}"}
     return {"kind": "declared-vs-built", "item": ",".join(items), "cause": "other"}
 
 
-def check_scenario(cfg: Dict, model_out: Optional[Tuple[str, str]]) -> Tuple[List[dict], Optional[List[str]]]:
-    """Implementation-side checks of one scenario; `model_out` = the driver's (build, declared) answers or None."""
+def check_scenario(cfg: Dict, model_out: Optional[Tuple[str, str]], twice: bool = True,
+                   ctx: Optional[Ctx] = None) -> Tuple[List[dict], Optional[List[str]]]:
+    """Implementation-side checks of one scenario; `model_out` = the driver's (build, declared) answers or None.
+    `twice`: the SAME mapping object is handed to the loader a second time - it must build the same simulation."""
     fails: List[dict] = []
-    game, f = _load(cfg)
+    work = copy.deepcopy(cfg)
+    snap = copy.deepcopy(work) if twice else None
+    game, f = _build(work)
     if f:
         return [f], None
     inv = R.inventory(game, cfg)
     for b in R.state_oracle(game):
         fails.append({"kind": "initial-state", "item": b.split()[0], "detail": b})
+    for b in R.options_oracle(game, cfg):
+        fails.append({"kind": "game-options", "item": b.split()[1], "detail": b})
+    if twice:
+        if ctx is not None:
+            for mp in mutation_paths(snap, work):
+                ctx.count("loader-changed-its-argument:" + mp)
+        game2, f2 = _build(work)
+        if f2:
+            fails.append(dict(f2, kind="second-build-from-same-mapping-raises"))
+        else:
+            inv2 = R.inventory(game2, cfg)
+            if inv2 != inv:
+                diff = sorted(set(inv) ^ set(inv2))
+                fails.append({"kind": "second-build-from-same-mapping-differs", "item": diff[0].split()[0], "diff": diff[:6],
+                              "argument_changes": mutation_paths(snap, work)[:8]})
     if model_out is not None:
         b, d = R.split_inventory(model_out[0]), R.split_inventory(model_out[1])
         if b != inv:
@@ -87,20 +162,69 @@ def check_scenario(cfg: Dict, model_out: Optional[Tuple[str, str]]) -> Tuple[Lis
     return fails, inv
 
 
-def check_variants(cfg: Dict, inv: List[str], rng: Rng, digest_steps: int, n_variants: int = 3) -> List[dict]:
-    """Permuted / reversed / re-serialised copies must build the same inventory and (digest_steps > 0) behave identically."""
+STATE_TOKENS = re.compile(r" (wired|en|st|h)=\S+|^(node \S+ \S+) \S+")
+
+
+def mask_states(inv: List[str]) -> List[str]:
+    """Inventory without the initial-state fields (used after `reset()`, which powers every node on: F-31, not claimed)."""
+    return sorted(STATE_TOKENS.sub(lambda m: m.group(2) or "", l) for l in inv)
+
+
+def check_env_twice(cfg: Dict, inv: List[str], resets: int = 1) -> Tuple[List[dict], int]:
+    """A user-held mapping passed twice to `PrimaiteGymEnv(env_config=cfg)`: both environments hold the declared simulation, the
+    user's mapping is untouched, and after `reset()` the same items are there (states aside). Returns (failures, F-31 count)."""
+    from primaite.session.environment import PrimaiteGymEnv
+    fails: List[dict] = []
+    held = copy.deepcopy(cfg)
+    snap = copy.deepcopy(held)
+    f31 = 0
+    try:
+        for k in (1, 2):
+            env = PrimaiteGymEnv(env_config=held)
+            got = R.inventory(env.game, cfg)
+            if got != inv:
+                diff = sorted(set(got) ^ set(inv))
+                fails.append({"kind": "env-build-differs", "which": k, "item": diff[0].split()[0], "diff": diff[:6]})
+            if k == 2:
+                for r in range(resets):
+                    env.reset()
+                    after = R.inventory(env.game, cfg)
+                    if mask_states(after) != mask_states(inv):
+                        diff = sorted(set(mask_states(after)) ^ set(mask_states(inv)))
+                        fails.append({"kind": "env-reset-build-differs", "episode": r + 1, "item": diff[0].split()[0], "diff": diff[:6]})
+                    f31 += sum(1 for a, b in zip(sorted(l for l in after if l.startswith("node ")), sorted(l for l in inv if l.startswith("node "))) if a != b)
+            env.close()
+        if held != snap:
+            fails.append({"kind": "env-changed-the-users-mapping", "changes": mutation_paths(snap, held)[:8]})
+    except Exception as e:
+        fails.append(dict(_fail_of(e), kind="env-raises"))
+    return fails, f31
+
+
+def check_variants(cfg: Dict, inv: List[str], rng: Rng, digest_steps: int, n_variants: int = 3,
+                   formats: Optional[List[str]] = None) -> List[dict]:
+    """Permuted / reversed / re-serialised copies, and the formatting-only re-writings named in `formats` (anchors and aliases,
+    merge keys, comments, quoted integers), must build the same inventory and (digest_steps > 0) behave identically."""
     fails = []
     variants = [("permuted", G.permute_mappings(cfg, rng, keep=KEEP)), ("reversed", G.reverse_mappings(cfg, keep=KEEP)),
                 ("reserialised", G.reserialise(cfg, rng))][:n_variants]
+    if formats:
+        try:
+            variants += G.format_variants(cfg, rng, formats)
+        except Exception as e:  # the rig's own text generation failing is a rig problem, reported as such
+            fails.append({"kind": "format-variant-not-producible", "exc": type(e).__name__, "msg": str(e)[:160]})
     for name, v in variants:
+        # aliases make the parsed document SHARE sub-mappings: the loader gets it as parsed (deepcopy keeps the sharing)
         game, f = _load(v)
         if f:
-            fails.append({"kind": "key-order-changes-loading", "variant": name, "exc": f["exc"], "where": f["where"]})
+            fails.append({"kind": "key-order-changes-loading" if name in ("permuted", "reversed") else "formatting-changes-loading",
+                          "variant": name, "exc": f["exc"], "where": f["where"], "msg": f.get("msg", "")[:120]})
             continue
         inv2 = R.inventory(game, cfg)
         if inv2 != inv:
             diff = sorted(set(inv) ^ set(inv2))
-            fails.append({"kind": "key-order-changes-inventory", "variant": name, "item": diff[0].split()[0], "diff": diff[:6]})
+            fails.append({"kind": "key-order-changes-inventory" if name in ("permuted", "reversed") else "formatting-changes-inventory",
+                          "variant": name, "item": diff[0].split()[0], "diff": diff[:6]})
     if digest_steps > 0:
         try:
             d0 = R.trajectory_digest(cfg, 7, digest_steps)
@@ -138,12 +262,44 @@ def office_lan_expected(ns: Dict) -> Tuple[List[str], List[str]]:
     return sorted(nodes), sorted(links)
 
 
-def check_office_lan(ns: Dict) -> List[dict]:
+def office_lines(ns: Dict) -> List[str]:
+    """Driver input for one `office-lan` entry: the model's build and the declared closed form."""
+    args = (f"{R.tok(ns['lan_name'])} {ns['subnet_base']} {ns['pcs_ip_block_start']} {ns['num_pcs']} "
+            f"{'-' if 'include_router' not in ns else (1 if ns['include_router'] else 0)} {ns.get('bandwidth', '-')}")
+    return ["office-build " + args, "office-declared " + args]
+
+
+def office_inventory(net) -> List[str]:
+    """What the adder put into the network, in the driver's format."""
+    out = []
+    for n in net.nodes.values():
+        nic1 = n.network_interface.get(1)
+        ip = getattr(nic1, "ip_address", None)
+        if n._discriminator == "router" and str(ip) == "127.0.0.1":
+            ip = None
+        out.append(f"onode {R.tok(n.config.hostname)} {n._discriminator} {R._o(ip)} {R._o(getattr(n.config, 'default_gateway', None))}")
+    for l in net.links.values():
+        bw = l.bandwidth
+        out.append(f"olink {R.tok(l.endpoint_a.parent.config.hostname)} {l.endpoint_a.port_num} {R.tok(l.endpoint_b.parent.config.hostname)} "
+                   f"{l.endpoint_b.port_num} {int(bw) if float(bw) == int(bw) else bw}")
+    return sorted(out)
+
+
+def check_office_lan(ns: Dict, model_out: Optional[Tuple[str, str]] = None) -> List[dict]:
     cfg = {"io_settings": dict(G.QUIET_IO), "game": {"ports": ["HTTP"], "protocols": ["TCP"]},
            "simulation": {"network": {"nodes": [], "links": [], "node_sets": [ns]}}, "agents": []}
     game, f = _load(cfg)
+    valid = ns["pcs_ip_block_start"] + ns["num_pcs"] < 254 and ns["pcs_ip_block_start"] > max(0, -(-ns["num_pcs"] // 23))
     if f:
+        if not valid and f["exc"] in ("ValueError", "ValidationError"):
+            # a refused entry: the model must refuse it too, for the same reason
+            want = "error ipRange" if "octets cannot exceed" in f["msg"] else ("error ipStartSmall" if "pcs_ip_block_start must be greater" in f["msg"] else "?")
+            if model_out is not None and model_out[0] != want:
+                return [{"kind": "office-lan-model-vs-impl", "model": model_out[0][:80], "impl": f"raises {f['exc']}: {f['msg'][:80]}"}]
+            return []
         return [dict(f, kind="office-lan-raises")]
+    if not valid:
+        return [{"kind": "office-lan-invalid-entry-built", "node_set": ns}]
     net = game.simulation.network
     nodes = sorted(n.config.hostname for n in net.nodes.values())
     links = sorted(f"{l.endpoint_a.parent.config.hostname}:{l.endpoint_a.port_num}<->{l.endpoint_b.parent.config.hostname}:"
@@ -163,22 +319,57 @@ def check_office_lan(ns: Dict) -> List[dict]:
         if str(pc.network_interface[1].ip_address) != f"192.168.{base}.{i + start - 1}" or str(pc.config.default_gateway) != want_gw:
             fails.append({"kind": "office-lan-addressing", "pc": i})
             break
-    # every PC's NIC and its switch port are enabled, and (with a router) the PC reaches its gateway at layer 2
+    # every node is ON and every link end enabled (the adder powers its nodes on and wires them afterwards)
+    for n in net.nodes.values():
+        if n.operating_state.name != "ON":
+            fails.append({"kind": "office-lan-node-not-on", "node": n.config.hostname})
+            break
     for l in net.links.values():
         if not (l.endpoint_a.enabled and l.endpoint_b.enabled):
             fails.append({"kind": "office-lan-link-down", "link": str(l)[:80]})
             break
+    if model_out is not None:
+        inv = office_inventory(net)
+        for which, line in (("build", model_out[0]), ("declared", model_out[1])):
+            m = R.split_inventory(line)
+            if m != inv:
+                fails.append({"kind": "office-lan-model-vs-impl" if which == "build" else "office-lan-declared-vs-built",
+                              "only_model": [x for x in m if x not in inv][:5], "only_impl": [x for x in inv if x not in m][:5]})
     return fails
 
 
 # ------------------------------------------------------------------------------------------------ schedules
-def check_schedule_dir(d: Path, ctx: Ctx) -> Tuple[List[str], List[str], List[dict], List[Tuple[str, Dict]]]:
-    """Real EpisodeListScheduler vs an independent assembly and vs the model's document selection."""
+def _scramble(o: Any) -> None:
+    """Do to a scenario mapping the worst a consumer may do: empty every container in it, in place."""
+    if isinstance(o, dict):
+        for v in list(o.values()):
+            _scramble(v)
+        o.clear()
+    elif isinstance(o, list):
+        for v in o:
+            _scramble(v)
+        del o[:]
+
+
+def _quiet(cfg: Dict) -> Dict:
+    io = dict(cfg.get("io_settings") or {})
+    io.update(scen.QUIET_IO)
+    cfg["io_settings"] = io
+    return cfg
+
+
+def check_schedule_dir(d: Path, ctx: Ctx, env_level: bool = True) -> Tuple[List[str], List[str], List[dict], List[Tuple[str, Dict]]]:
+    """Real EpisodeListScheduler vs an independent assembly and vs the model's document selection, used the way the environment
+    uses it: ONE scheduler object, asked for episode after episode PAST the end of the schedule, every answer handed straight to
+    `PrimaiteGame.from_config` (which may do to it what it likes) - so every combination of files is built at least twice."""
     from primaite.session.episode_schedule import build_scheduler
-    fails, cfgs = [], []
+    fails: List[dict] = []
+    cfgs: List[Tuple[str, Dict]] = []
     sch = build_scheduler(d)
-    spec = yaml.safe_load((d / "schedule.yaml").read_text())
+    loader = getattr(yaml, "CSafeLoader", yaml.SafeLoader)
+    spec = yaml.load((d / "schedule.yaml").read_text(), Loader=loader)
     table = spec["schedule"]
+    L = len(table)
     lines, expect = ["reset"], ["ok"]
     for e, names in table.items():
         lines.append(f"sched-entry {e} " + " ".join(names))
@@ -188,22 +379,98 @@ def check_schedule_dir(d: Path, ctx: Ctx) -> Tuple[List[str], List[str], List[di
         expect.append("ok")
     lines.append(f"sched-base {spec['base_scenario']}")
     expect.append("ok")
-    for n in range(0, 2 * len(table) + 1):
+    assembled: Dict[Tuple[str, ...], Dict] = {}
+
+    def want_of(names) -> Dict:
+        key = tuple(names)
+        if key not in assembled:
+            text = "\n".join([(d / f).read_text() for f in names] + [(d / spec["base_scenario"]).read_text()])
+            w = yaml.load(text, Loader=loader)
+            flat = []
+            for a in w["agents"]:
+                flat.extend(a) if isinstance(a, list) else flat.append(a)
+            w["agents"] = flat
+            assembled[key] = w
+        return copy.deepcopy(assembled[key])
+
+    # which episodes: all of 0 .. 2L in the thorough tier and for short schedules; for long ones a selection in which every
+    # combination of files is requested (and built) at least twice, the wrap-around indices L, L+1, 2L included
+    if ctx.thorough or L <= 6:
+        ns = list(range(0, 2 * L + 1))
+    else:
+        first: Dict[Tuple[str, ...], List[int]] = {}
+        for e in sorted(table):
+            first.setdefault(tuple(table[e]), []).append(e)
+        ns = sorted({occ[0] for occ in first.values()} | {(occ[1] if len(occ) > 1 else occ[0] + L) for occ in first.values()}
+                    | {L - 1, L, L + 1, 2 * L})
+    reference: Dict[Tuple[str, ...], List[str]] = {}
+    built: Dict[Tuple[str, ...], int] = {}
+    for n in ns:
+        names = table[n % L]
+        key = tuple(names)
         got = sch(n)
-        names = table[n % len(table)]
-        text = "\n".join([(d / f).read_text() for f in names] + [(d / spec["base_scenario"]).read_text()])
-        want = yaml.safe_load(text)
-        flat = []
-        for a in want["agents"]:
-            flat.extend(a) if isinstance(a, list) else flat.append(a)
-        want["agents"] = flat
-        if got != want:
-            fails.append({"kind": "schedule-assembly", "dir": d.name, "episode": n})
+        want = want_of(names)
         lines.append(f"sched {n}")
         expect.append(" ".join(list(names) + [spec["base_scenario"]]))
-        if n < len(table):
-            cfgs.append((f"{d.name}#ep{n}", got))
         ctx.count("schedule-episode")
+        if got != want:
+            fails.append({"kind": "schedule-assembly", "dir": d.name, "episode": n, "times_built_before": built.get(key, 0),
+                          "differs_at": mutation_paths(want, got)[:6]})
+            continue
+        if key not in reference:
+            g0, f0 = _build(_quiet(want_of(names)))
+            if f0:
+                fails.append(dict(f0, kind="schedule-episode-raises", dir=d.name, episode=n))
+                continue
+            reference[key] = R.inventory(g0, want)
+            cfgs.append((f"{d.name}#ep{n}", _quiet(want_of(names))))
+        # exactly what reset() does: the scheduler's own answer goes to the loader
+        game, f = _build(got)
+        ctx.count("schedule-build")
+        if f:
+            fails.append(dict(f, kind="schedule-episode-raises", dir=d.name, episode=n))
+            continue
+        inv = R.inventory(game, want)
+        built[key] = built.get(key, 0) + 1
+        if inv != reference[key]:
+            diff = sorted(set(inv) ^ set(reference[key]))
+            fails.append({"kind": "schedule-build-differs", "dir": d.name, "episode": n, "build_number": built[key],
+                          "item": diff[0].split()[0], "diff": diff[:6]})
+    ctx.count("schedule-combination-built-twice", sum(1 for v in built.values() if v >= 2))
+    ctx.count("schedule-combination", len(reference))
+    # what the scheduler hands out is the caller's to consume: wreck one answer, ask again
+    for key in list(reference)[: ctx.scale(2, 99)]:
+        n = next(e for e in sorted(table) if tuple(table[e]) == key)
+        a = sch(n)
+        b = sch(n)
+        if a is b:
+            fails.append({"kind": "schedule-hands-out-shared-object", "dir": d.name, "episode": n, "how": "same object twice"})
+            continue
+        _scramble(a)
+        c = sch(n)
+        if c != want_of(table[n]) or b != want_of(table[n]):
+            fails.append({"kind": "schedule-hands-out-shared-object", "dir": d.name, "episode": n,
+                          "how": "emptying one answer changed another"})
+        ctx.count("schedule-freshness-probe")
+    # the environment itself, reset past the end of the schedule (small scenarios; all in the thorough tier)
+    if env_level and not fails:
+        from primaite.session.environment import PrimaiteGymEnv
+        try:
+            env = PrimaiteGymEnv(env_config=d)
+            for ep in range(0, 2 * L + 1):
+                if ep:
+                    env.reset()
+                key = tuple(table[ep % L])
+                inv = R.inventory(env.game, assembled[key])
+                if mask_states(inv) != mask_states(reference[key]):
+                    diff = sorted(set(mask_states(inv)) ^ set(mask_states(reference[key])))
+                    fails.append({"kind": "schedule-env-build-differs", "dir": d.name, "episode": ep, "item": diff[0].split()[0],
+                                  "diff": diff[:6]})
+                    break
+                ctx.count("schedule-env-episode")
+            env.close()
+        except Exception as e:
+            fails.append(dict(_fail_of(e), kind="schedule-env-raises", dir=d.name))
     return lines, expect, fails, cfgs
 
 
@@ -212,8 +479,15 @@ def replay(rec: dict) -> bool:
     rp = rec["replay"]
     mode = rp.get("mode", "scenario")
     if mode == "office-lan":
-        return not check_office_lan(rp["node_set"])
-    cfg = rp["cfg"]
+        with lean_lock():
+            from harness.lib.core import lake_build
+            lake_build([EXE])
+        o = run_driver(EXE, office_lines(rp["node_set"]))
+        return not check_office_lan(rp["node_set"], (o[0], o[1]))
+    if mode == "schedule":
+        ctx = Ctx("C20", "quick", 1)
+        return not check_schedule_dir(Path(rp["dir"]), ctx)[2]
+    cfg = rp["cfg"] if rp.get("raw_keys") else _int_keys(rp["cfg"])
     with lean_lock():
         from harness.lib.core import lake_build
         lake_build([EXE])
@@ -226,7 +500,9 @@ def replay(rec: dict) -> bool:
         pass
     fails, inv = check_scenario(cfg, out)
     if not fails and inv is not None:
-        fails = check_variants(cfg, inv, Rng(1), rp.get("digest_steps", 0))
+        fails = check_variants(cfg, inv, Rng(1), rp.get("digest_steps", 0), 3, rp.get("formats"))
+    if not fails and inv is not None and rp.get("env"):
+        fails = check_env_twice(cfg, inv)[0]
     return not fails
 
 
@@ -239,16 +515,53 @@ def _int_keys(o: Any) -> Any:
     return o
 
 
+FORMATS = ["aliases", "merge-keys", "comments", "quoted-ints"]
+
+
+def _vocabulary_gaps() -> List[str]:
+    """Software types the implementation registers that the generator's vocabulary or the live-option table does not know."""
+    import primaite.game.game as gg
+    from primaite.simulator.system.applications.application import Application
+    from primaite.simulator.system.services.service import Service
+    registered = set(gg.SERVICE_TYPES_MAPPING) | set(Application._registry)
+    gaps = [f"generator lacks {t}" for t in sorted(registered - set(G.SOFTWARE_VOCABULARY))]
+    gaps += [f"generator has unknown {t}" for t in sorted(set(G.SOFTWARE_VOCABULARY) - registered)]
+    # every option a schema declares is either generated or common
+    common = {"type", "starting_health_state", "criticality", "fixing_duration", "listen_on_ports"}
+    for t in sorted(registered & set(G.SOFTWARE_VOCABULARY)):
+        cls = R._software_class(t)
+        fields = set(cls.ConfigSchema.model_fields) - common
+        gen = set(G.SOFTWARE_VOCABULARY[t][1])
+        inherited = {"db_server_ip", "server_password"} if t == "dos-bot" else set()  # DoSBot's schema extends DatabaseClient's
+        gaps += [f"{t}: option {o} never generated" for o in sorted(fields - gen - inherited)]
+        gaps += [f"{t}: generated option {o} not in the schema" for o in sorted(gen - fields)]
+    # every (class, attribute, option) the constructors apply under ANOTHER name has a reader in LIVE_OPTIONS
+    by_class = {R._software_class(t).__name__: t for t in registered}
+    for cls, attr, opt in x_cfg._software_inits()[0]:
+        t = by_class.get(cls)
+        if t and attr != opt and opt not in R.LIVE_OPTIONS.get(t, {}):
+            gaps.append(f"{t}: option {opt} is applied to .{attr} but LIVE_OPTIONS does not read it")
+    return gaps
+
+
 def run(ctx: Ctx):
     with lean_lock():
         ctx.extract("Config", x_cfg.emit)
         ctx.prove(MODULES, exes=[EXE], leanchecker=ctx.thorough)
     ctx.cov["rule"] = ("cases = corpus witnesses + generated scenarios (families lan / routed / dmz x size 1-3 x with / without configured "
-                       "system software x optional office-lan node set) + every shipped scenario + every episode of every shipped "
-                       "schedule directory; one evaluation = one scenario loaded and its inventory diffed with the model's build and "
-                       "declared, plus one per permuted / reversed / re-serialised variant; non-trivial = the scenario has a router or "
-                       "firewall ACL, routes, configured software and at least one agent; distinct by canonical scenario JSON")
+                       "system software) + software-matrix scenarios (every configurable software type with non-default options on "
+                       "hosts declared absent/ON/OFF/BOOTING/SHUTTING_DOWN) + every shipped scenario + one per combination of files "
+                       "of every shipped schedule directory; one evaluation = one scenario loaded and its inventory (items, option "
+                       "effects read off the live objects, initial states) diffed with the model's build and declared, plus one per "
+                       "variant (permuted / reversed / re-serialised / aliases / merge keys / comments / quoted integers), per second "
+                       "build from the same mapping, per environment built from a user-held mapping, per scheduled episode built the "
+                       "way reset() does; non-trivial = the scenario has a router or firewall ACL, configured software and an agent, or "
+                       "a host that is not ON carrying configured software; distinct by canonical scenario JSON")
+    gaps = _vocabulary_gaps()
+    ctx.oblige("rig:generator vocabulary and live-option table cover every registered software type and schema option", "correspondence",
+               not gaps, "; ".join(gaps[:6]))
     cases: List[Tuple[str, Dict, int]] = []  # name, cfg, digest_steps
+    raw_corpus = set()
     # 1. corpus
     for f in sorted((VERIF / "corpus" / "C20").glob("*.json")):
         rec = json.loads(f.read_text())
@@ -258,14 +571,22 @@ def run(ctx: Ctx):
             ctx.count("corpus:office-lan")
             ctx.case(rec["node_set"], True)
             continue
-        cases.append(("corpus:" + f.name, _int_keys(rec["cfg"]), rec.get("digest_steps", 0)))
+        name = "corpus:" + f.name
+        if rec.get("raw_keys"):
+            raw_corpus.add(name)
+        cases.append((name, rec["cfg"] if rec.get("raw_keys") else _int_keys(rec["cfg"]), rec.get("digest_steps", 0)))
     # 2. generated families
     rng = ctx.rng.fork("scenarios")
-    n_gen = ctx.scale(18, 200)
+    n_gen = ctx.scale(15, 140)
     for k in range(n_gen):
         fam = G.FAMILIES[k % 3]
         cfg = G.gen_scenario(rng, size=1 + (k // 3) % 3, family=fam, shadowing=(k % 4 == 3), node_sets=False)
-        cases.append((f"gen:{k}:{fam}", cfg, ctx.scale(10, 20) if k % ctx.scale(6, 5) == 0 else 0))
+        cases.append((f"gen:{k}:{fam}", cfg, ctx.scale(10, 20) if k % ctx.scale(7, 5) == 0 else 0))
+    # 2b. software matrix: every software type x non-default options x declared operating state of the node
+    mrng = ctx.rng.fork("matrix")
+    for k in range(ctx.scale(10, 90)):
+        cfg = G.gen_software_matrix(mrng, size=1 + k % 3)
+        cases.append((f"matrix:{k}", cfg, ctx.scale(8, 16) if k % ctx.scale(5, 4) == 0 else 0))
     # 3. shipped single-file scenarios
     shipped = scen.shipped()
     for name, path in shipped.items():
@@ -286,19 +607,19 @@ def run(ctx: Ctx):
     sched_lines: List[str] = []
     sched_expect: List[str] = []
     for d in sorted(p for p in scen.PKG.iterdir() if p.is_dir() and (p / "schedule.yaml").exists()):
+        small = sum(f.stat().st_size for f in d.glob("*.yaml")) < 30000
         try:
-            lines, expect, fails, cfgs = check_schedule_dir(d, ctx)
+            lines, expect, fails, cfgs = check_schedule_dir(d, ctx, env_level=small or ctx.thorough)
         except Exception as e:
-            ctx.violation({"kind": "schedule-raises", "dir": d.name, "exc": type(e).__name__}, f"schedule {d.name}: {e}", {"dir": str(d)})
+            ctx.violation({"kind": "schedule-raises", "dir": d.name, "exc": type(e).__name__}, f"schedule {d.name}: {e}",
+                          {"mode": "schedule", "dir": str(d)})
             continue
         sched_lines += lines
         sched_expect += expect
         for fl in fails:
-            ctx.violation({"kind": fl["kind"], "dir": fl["dir"]}, f"schedule {fl}", fl)
+            ctx.violation({k: fl[k] for k in ("kind", "dir", "item", "how", "exc") if k in fl}, f"schedule {json.dumps(fl, default=str)[:600]}",
+                          {"mode": "schedule", "dir": str(d), "failure": fl})
         for nm, cfg in cfgs:
-            io = dict(cfg.get("io_settings") or {})
-            io.update(scen.QUIET_IO)
-            cfg["io_settings"] = io
             cases.append((f"scheduled:{nm}", cfg, ctx.scale(0, 8)))
     # model side, batched
     all_lines: List[str] = []
@@ -323,7 +644,9 @@ def run(ctx: Ctx):
                str(sched_bad[:2]))
     # implementation side
     agree = modelled = 0
-    for name, cfg, steps in cases:
+    env_budget = ctx.scale(8, 60)
+    f31_total = 0
+    for idx, (name, cfg, steps) in enumerate(cases):
         kind = name.split(":")[0]
         ctx.count("case:" + kind)
         mo = None
@@ -332,49 +655,97 @@ def run(ctx: Ctx):
             mo = (out[st + ln - 2], out[st + ln - 1])
             modelled += 1
             ctx.cov["traces_validated_against_impl"] += 1
-        fails, inv = check_scenario(copy.deepcopy(cfg), mo)
+        small = kind in ("gen", "matrix", "corpus") or not name.startswith(("shipped:uc7", "scheduled:uc7"))
+        fails, inv = check_scenario(cfg, mo, twice=small or ctx.thorough, ctx=ctx)
+        if small or ctx.thorough:
+            ctx.count("second-build-from-same-mapping")
+            ctx.cov["evaluations"] += 1
         summ = G.summary(cfg) if "simulation" in cfg else {}
-        nontrivial = bool(summ.get("acl_rules") and summ.get("agents") and (summ.get("services") or summ.get("applications")))
+        off_hosts = [n for n in (cfg.get("simulation", {}).get("network", {}).get("nodes") or [])
+                     if str(n.get("operating_state", "ON")).upper() not in ("ON", "TRUE") and n.get("operating_state") not in (None, "", False)
+                     and (n.get("services") or n.get("applications"))]
+        nontrivial = bool((summ.get("acl_rules") and summ.get("agents") and (summ.get("services") or summ.get("applications"))) or off_hosts)
         ctx.case({"name": name, "cfg": cfg}, nontrivial)
         for k, v in summ.items():
             if v:
                 ctx.count("has:" + k.split(":")[0])
+        if off_hosts:
+            ctx.count("has:not-ON-host-with-configured-software", len(off_hosts))
+            for n in off_hosts:
+                for e in (n.get("services") or []) + (n.get("applications") or []):
+                    ctx.count(f"software-on-{str(n['operating_state']).upper()}-node:{e['type']}")
         if inv is not None:
-            nv = 3 if (ctx.thorough or kind in ("gen", "corpus") or steps) else 1
-            vf = check_variants(cfg, inv, ctx.rng.fork(name), steps, nv)
-            ctx.cov["evaluations"] += nv
+            nv = 3 if (ctx.thorough or kind in ("gen", "corpus", "matrix") or steps) else 1
+            fmts = None
+            if kind in ("gen", "matrix") and name not in raw_corpus:
+                fmts = FORMATS if ctx.thorough else [FORMATS[idx % 4], FORMATS[(idx + 1) % 4]]
+            vf = check_variants(cfg, inv, ctx.rng.fork(name), steps, nv, fmts)
+            ctx.cov["evaluations"] += nv + len(fmts or [])
             ctx.count("variants-checked", nv)
+            for fm in fmts or []:
+                ctx.count("format-variant:" + fm)
             if steps:
                 ctx.count("digest-compared", 2)
             fails += vf
+            if kind in ("gen", "matrix") and env_budget > 0 and any(a.get("type") == "proxy-agent" for a in cfg.get("agents", [])) \
+                    and (idx % 3 == 0 or ctx.thorough):
+                env_budget -= 1
+                ef, f31 = check_env_twice(cfg, inv)
+                f31_total += f31
+                fails += ef
+                ctx.count("env-built-twice-from-user-held-mapping")
+                ctx.cov["evaluations"] += 2
         if mo is not None and not any(f["kind"] == "model-vs-impl" for f in fails):
             agree += 1
         for f in fails:
             sig = {k: f[k] for k in ("kind", "item", "cause", "exc", "where", "variant") if k in f}
             if f["kind"] == "load-raises" and f.get("exc") == "RecursionError":
                 sig["cause"] = "second-nic-linked-before-first"
-            ctx.violation(sig, f"{name}: {json.dumps({k: v for k, v in f.items()}, default=str)[:600]}",
-                          {"mode": "scenario", "cfg": cfg, "digest_steps": steps, "failure": f, "from": name})
-        if kind == "gen" and len(ctx.cov["samples"]) < 3 and inv is not None:
-            ctx.sample({"case": name, "summary": summ, "inventory_lines": len(inv), "first": inv[:3]})
+            rp = {"mode": "scenario", "cfg": cfg, "digest_steps": steps, "failure": f, "from": name}
+            if name in raw_corpus:
+                rp["raw_keys"] = True
+            if f["kind"].startswith("env-"):
+                rp["env"] = True
+            ctx.violation(sig, f"{name}: {json.dumps({k: v for k, v in f.items()}, default=str)[:700]}", rp)
+        if kind in ("gen", "matrix") and len(ctx.cov["samples"]) < 4 and inv is not None and (kind == "matrix" or len(ctx.cov["samples"]) < 2):
+            ctx.sample({"case": name, "summary": summ, "inventory_lines": len(inv), "first": inv[:3],
+                        "a_software_line": next((l for l in inv if l.startswith("sw ") and "=" in l.split(" h=")[-1]), None)})
+    ctx.count("nodes-not-in-declared-state-after-reset (F-31, not claimed)", f31_total)
     ctx.oblige("rig:R-cfg the modelled loader (Lean build) agrees with the real inventory on every modelled scenario", "correspondence",
                agree == modelled, f"{modelled - agree} of {modelled} scenarios disagree")
-    # 5. office-lan node sets (Python oracle; corners included)
+    # 5. office-lan node sets: real adder vs the Lean model of its loop, vs the declared closed form (Lean) and vs an independent
+    #    Python closed form; corners and refused entries included
     orng = ctx.rng.fork("office")
     sets = [{"type": "office-lan", "lan_name": "A", "subnet_base": 5, "pcs_ip_block_start": 10, "num_pcs": 3, "include_router": False},
             {"type": "office-lan", "lan_name": "B", "subnet_base": 6, "pcs_ip_block_start": 10, "num_pcs": 24},
             {"type": "office-lan", "lan_name": "C", "subnet_base": 7, "pcs_ip_block_start": 10, "num_pcs": 47, "include_router": False,
-             "bandwidth": 150}]
+             "bandwidth": 150},
+            {"type": "office-lan", "lan_name": "D", "subnet_base": 8, "pcs_ip_block_start": 2, "num_pcs": 46},          # start = #switches: refused
+            {"type": "office-lan", "lan_name": "E", "subnet_base": 9, "pcs_ip_block_start": 200, "num_pcs": 54}]        # past .253: refused
     for _ in range(ctx.scale(6, 40)):
         ns = {"type": "office-lan", "lan_name": orng.choice(["X", "LAB", "HQ"]), "subnet_base": orng.range(2, 200),
-              "pcs_ip_block_start": orng.range(5, 60), "num_pcs": orng.choice([1, 2, 5, 22, 23, 24, 30, 46, 47, 60])}
+              "pcs_ip_block_start": orng.range(5, 60), "num_pcs": orng.choice([0, 1, 2, 5, 22, 23, 24, 30, 46, 47, 60, 69, 70, 92, 93])}
         if orng.chance(1, 2):
             ns["include_router"] = orng.chance(1, 2)
         if orng.chance(1, 2):
             ns["bandwidth"] = orng.choice([10, 100, 150])
+        if orng.chance(1, 8):
+            ns["pcs_ip_block_start"] = orng.choice([1, 2, 3, 250])
         sets.append(ns)
+    olines: List[str] = []
     for ns in sets:
+        olines += office_lines(ns)
+    oout = run_driver(EXE, olines)
+    ctx.oblige("driver accepted every office-lan line", "correspondence", "bad-op" not in oout, str([q for q, a in zip(olines, oout) if a == "bad-op"][:2]))
+    obad = 0
+    for k, ns in enumerate(sets):
         ctx.count("case:office-lan")
+        ctx.count(f"office-lan:switches={max(1, -(-ns['num_pcs'] // 23))}:router={ns.get('include_router', 'default')}")
         ctx.case(ns, ns["num_pcs"] > 23 or ns.get("include_router") is False)
-        for fl in check_office_lan(ns):
-            ctx.violation({"kind": fl["kind"]}, f"office-lan {ns}: {fl}", {"mode": "office-lan", "node_set": ns, "failure": fl})
+        ctx.cov["traces_validated_against_impl"] += 1
+        for fl in check_office_lan(ns, (oout[2 * k], oout[2 * k + 1])):
+            if fl["kind"] == "office-lan-model-vs-impl":
+                obad += 1
+            ctx.violation({"kind": fl["kind"]}, f"office-lan {ns}: {json.dumps(fl, default=str)[:500]}", {"mode": "office-lan", "node_set": ns, "failure": fl})
+    ctx.oblige("rig:office-lan the modelled adder (Lean officeBuild) agrees with the real one on every node set", "correspondence", obad == 0,
+               f"{obad} node sets disagree")
